@@ -13,6 +13,9 @@
                  1..3 program segments on one engine, as separate run calls or as ONE list; after Engine.reset the outcomes are gone
   errors         unbound parameters, unknown names: ParameterError, never a silent default or a value leaked from another program
   isolation      creating / binding / running program B must not change program A (finding F7: symbols are cached by name)
+  measured_multi one MeasureFock / MeasureThreshold command on several modes listed in any order, outcomes then used as parameters
+  par_convert    parameters.par_convert (how loaded Blackbird / XIR programs get their parameters): q<N> -> the measured value of
+                 subsystem N for every N (two and three digits too), other symbols -> free parameters; value = the harness' arithmetic
 """
 from __future__ import annotations
 
